@@ -460,6 +460,9 @@ package processors
 //@ loop 2 invariant [default-required-so-far] forall(j, int, implies(0 <= j && j < _done && d.Required, ArgIn(properties[j].args, component_definition.ArgRequired)), properties[j])
 
 // ---- logger injection (C11 frame): the only memory written is the field behind a logger-tagged property ----------------
+//   LogPrefExpected(p): the prefix a logger field gets: an explicit tag value wins; otherwise the component's own name,
+//   whatever the embedding depth, unless the field asks for the embedded path with the embed argument
+//@ spec func LogPrefExpected(p *component_definition.Property) any = ite(p.TagStr != "", toany(p.TagStr), ite(ArgIn(p.args, "embed"), toany(HolderStr(p.Holder)), toany(MetaStr(p.Holder.Meta))))
 //@ func (*loggerAwarePostProcessors).PostProcessProperties
 //@ property C11 C09
 //@ implements container.InstantiationAwareComponentPostProcessor
@@ -469,7 +472,13 @@ package processors
 //@ requires [properties-wellformed] forall(k, int, implies(0 <= k && k < len(properties), PointOK(properties[k]) && properties[k].args != nil && RCanSet(properties[k].Value) && properties[k].Holder.Meta != nil), properties[k])
 //@ assigns RMem, Failed, PropsLen, PropsAt
 //@ ensures [never-fails] result1 == nil && result0 == properties
-//@ ensures [only-logger-fields-written] forall(l, int, implies(forall(k, int, implies(0 <= k && k < len(properties) && properties[k].Tag == definition.LoggerTag, l != RLoc(properties[k].Value))), RMem[l] == old(RMem[l])))
+//   touched / chosen: (ghost, local) the logger fields this call set and the prefix handed to syslog.Pref for each
+//@ ghost local touched map[*component_definition.Property]bool
+//@ ghost local chosen map[*component_definition.Property]any
+//@ ghost before call Pref: touched = store(touched, property, true)
+//@ ghost before call Pref: chosen = store(chosen, property, _arg0)
+//@ ensures [prefix-independent-of-depth] forall(p, *component_definition.Property, implies(touched[p], chosen[p] == LogPrefExpected(p)), touched[p])
+//@ loop 1 invariant [prefix-so-far] forall(p, *component_definition.Property, implies(touched[p], chosen[p] == LogPrefExpected(p)), touched[p])
 // A-WIRING: a logger-tagged field has a type the container's logger value can be stored in (a field declared with a
 // wider interface than syslog.Logger would make reflect.Value.Set panic - noted in DESIGN.md, outside the listed properties).
 //@ assume before call Set: [logger-value-fits-field] RAssignable(RDynType(logger), RTypeOf(property.Value))
